@@ -63,6 +63,7 @@ fn verif_main() {
     }
     let rt = tokio::runtime::Builder::new_current_thread()
         .enable_all()
+        .start_paused(true) // virtual time: see rig.rs (`wait`), and the probes below need no real waiting
         .build()
         .unwrap();
     std::panic::set_hook(Box::new(|_| {}));
